@@ -71,14 +71,23 @@ def sensitivity(props=None, verbose=True):
     return results
 
 
+JOBS = int(os.environ.get("TCSS_JOBS", "6"))
+
+
 def neutrality(props=None, verbose=True):
+    """Items run JOBS at a time (each on its own scratch copy; fact extraction is serialised by the extractor's lock, the
+    checks themselves overlap)."""
     import neutral
-    results = []
+    from concurrent.futures import ThreadPoolExecutor
     allp = ["C%02d" % i for i in range(1, 21)]
+    todo = []
     for nid, nt in neutral.NEUTRAL.items():
         ps = [p for p in (nt.get("props") or allp) if props is None or p in props]
-        if not ps:
-            continue
+        if ps:
+            todo.append((nid, nt, ps))
+
+    def one(item):
+        nid, nt, ps = item
         r = run_edit(nt["edits"], ps)
         rec = {"edit": nid, "note": nt["note"]}
         if r["status"] == "skipped":
@@ -86,10 +95,11 @@ def neutrality(props=None, verbose=True):
         else:
             alarms = {p: pr["rules"][:3] for p, pr in r["props"].items() if pr["exit"] != 0}
             rec.update(result="silent" if not alarms else "FALSE-ALARM", alarms=alarms)
-        results.append(rec)
         if verbose:
             print("%-34s %s %s" % (nid, rec["result"], rec.get("alarms") or rec.get("why") or ""), flush=True)
-    return results
+        return rec
+    with ThreadPoolExecutor(max_workers=max(1, JOBS)) as ex:
+        return list(ex.map(one, todo))
 
 
 if __name__ == "__main__":
